@@ -3,7 +3,7 @@
    misses (C08). *)
 From Coq Require Import List ZArith NArith Bool Lia.
 From PM Require Import Base.Bytes Store.KV Num.IntModel App.Model App.BankProofs App.TxProofs App.PoolProofs App.PoolExact
-  App.MissedProofs App.KeyTypes.
+  App.MissedProofs App.IndexProofs App.TombProofs App.GovProofs App.KeyTypes.
 Import ListNotations.
 Local Open Scope Z_scope.
 
@@ -21,4 +21,40 @@ Theorem run_cp_mok L r ops s s' : missed_ok L s -> Forall (op_len_ok L) ops -> r
 Proof.
   intros H F. revert s s' H. apply (run_cp_inv_P (missed_ok L) (op_len_ok L)); [exact (step_mok L)| |exact F].
   intros x t x' Hx _ E. exact (sm_ok L x x' (sm_ante x t x' E) Hx).
+Qed.
+
+(* C09 under the restriction: a tombstone is never lifted, a tombstoned validator stays jailed and never regains an index entry *)
+Theorem run_cp_tk r ops s s' : tomb_ok s -> run_cp r ops s = Some s' -> tk s s'.
+Proof.
+  intros H. apply (run_cp_inv (fun x => tk s x)).
+  - intros x o x' Hx E. eapply tk_trans; [exact Hx|]. apply (step_tk x o x' (proj1 Hx) E).
+  - intros x t x' Hx E. eapply tk_trans; [exact Hx|]. apply (ante_tk x t x' (proj1 Hx) E).
+  - apply tk_refl; exact H.
+Qed.
+Theorem tombstoned_forever_cp r ops s s' a : tomb_ok s -> tombed (sinfo s) a -> run_cp r ops s = Some s' ->
+  tombed (sinfo s') a /\ forall v, get_val s' a = Some v -> v_jailed v = true.
+Proof.
+  intros H T E. destruct (run_cp_tk r ops s s' H E) as [O M]. split; [apply M; exact T|].
+  intros v Ev. destruct O as (_ & _ & HO). apply (HO a v); auto.
+Qed.
+Theorem tombstoned_never_indexed_cp r ops s s' a : tomb_ok s -> idx_sound s -> tombed (sinfo s) a -> run_cp r ops s = Some s' ->
+  forall k, aget (powidx s') k <> Some a.
+Proof.
+  intros H I T E k Hk. destruct (tombstoned_forever_cp r ops s s' a H T E) as [_ J].
+  pose proof (run_cp_idx_sound r ops s s' I E) as I'. destruct (indexed_is_staked_unjailed s' k a I' Hk) as (v & Ev & _ & Jv & _).
+  rewrite (J v Ev) in Jv. discriminate.
+Qed.
+
+(* C17 under the restriction: over the whole block cycle only a delivered change-parameter / upgrade transaction of the ACL
+   owner changes a parameter, the ACL, the DAO owner or the upgrade plan (a refused stake ends in the ante handler's state,
+   which changes none of them) *)
+Theorem params_change_only_by_owner_tx_cp r s o s' : step_cp r s o = Some s' -> gov_view s' <> gov_view s ->
+  exists t s1, o = OTx t /\ ante s t = Some s1 /\ acl s1 = acl s /\
+    ((exists f key v raw wf, t_msg t = MChangeParam f key v raw wf /\ beqb (owner_of (acl s) key) f = true /\ msg_signer (t_msg t) = f) \/
+     (exists f h raw, t_msg t = MUpgrade f h raw /\ beqb (owner_of (acl s) [103;111;118;47;117;112;103;114;97;100;101]%N) f = true)).
+Proof.
+  destruct o as [h tm p vs es|t|a amt|a sev| |]; try (exact (params_change_only_by_owner_tx s _ s')).
+  simpl. intros [= <-] N. destruct (deliver_tx_cp_cases r s t) as [E|E].
+  - rewrite E in N. apply (params_change_only_by_owner_tx s (OTx t) (dres_state (deliver_tx s t))); [reflexivity|exact N].
+  - exfalso. apply N. exact (gv_ante s t _ E).
 Qed.
